@@ -46,6 +46,29 @@ func init() {
 		if c.Thorough {
 			lens = []int{1, 2, 25, 76, 300, 1000}
 		}
+		// What a child process calls FIRST differs from shard to shard (lazily
+		// initialised state must not depend on which entry point came first).
+		c.Phase("first-call-of-the-process")
+		{
+			scriptText := refaddr.EncodeBIP276(refaddr.BIP276{Prefix: bscript.PrefixScript, Version: 1, Network: 1, Data: []byte{0x51}})
+			tmplText := refaddr.EncodeBIP276(refaddr.BIP276{Prefix: bscript.PrefixTemplate, Version: 1, Network: 1, Data: []byte{0x52}})
+			first := []string{"DecodeBIP276(template)", "ValidateAddress(bitcoin-script text)", "DecodeBIP276(script)", "EncodeBIP276", "ValidateAddress(base58)"}[c.Shard%5]
+			c.Try("first call: "+first, func() {
+				switch c.Shard % 5 {
+				case 0:
+					_, _ = bscript.DecodeBIP276(tmplText)
+				case 1:
+					_, _ = bscript.ValidateAddress(scriptText)
+				case 2:
+					_, _ = bscript.DecodeBIP276(scriptText)
+				case 3:
+					_ = bscript.EncodeBIP276(bscript.BIP276{Prefix: "x", Version: 3, Network: 3, Data: []byte{1}})
+				default:
+					_, _ = bscript.ValidateAddress("1BvBMSEYstWetqTFn5Au4m4GFg7xJaNVN2")
+				}
+			})
+			c.Count("first-call:" + first)
+		}
 		c.Phase("rt-exhaustive")
 		n := uint64(0)
 		for v := 1; v <= 255; v++ {
